@@ -144,6 +144,7 @@ def run_schema(item):
                 reqs.append({"op": "can_dec", "which": which, "frame": fr})
                 index.append(("dec-" + lbl.split("=")[0].split("[")[0], which, name, v0, fr, exp))
     answers = cppbuild.run_requests(exe, reqs, refl)
+    longbus = {}
     for (op, which, name, v, frame, exp), a in zip(index, answers):
         S.count("executions")
         S.count("transitions")
@@ -153,6 +154,17 @@ def run_schema(item):
             S.add("outcomes", "crash")
             S.violation("C18.run", "C18.run/crash/%s" % which, inp, expected="answer", actual=a)
             break
+        if op == "enc" and len([b for b in frame["bus"] if b]) == 4 and label == "long-bus" and any(len(bu.encode("utf-8")) > 4 and n2 == name for n2, _f, _i, bu in bindings):
+            # a bus name the 4-byte tag cannot hold: the truncated tag or a refusal, but the same from both schemas
+            kind = "frame" if a.get("frame") == frame else "refused" if ("null" in a or "exc" in a) else "other"
+            longbus.setdefault((name, str(v)), {})[which] = kind
+            if kind == "other":
+                S.add("outcomes", "long-bus-differs")
+                S.violation("C18.encode", "C18.encode/long-bus-name/%s" % which, inp, expected={"truncated tag": frame, "or": "refusal"}, actual=a)
+            else:
+                S.add("outcomes", "long-bus:" + kind)
+                S.add("nontrivial", (idx, name, str(v)))
+            continue
         if op == "enc-over":
             if "null" in a or "exc" in a:
                 S.add("outcomes", "oversize-refused")
@@ -193,6 +205,9 @@ def run_schema(item):
                     S.add("outcomes", "dec-differs")
                     what = "not-recognised" if "null" in a else "exception" if "exc" in a else "wrong-binding" if a.get("name") != tname else "value"
                     S.violation("C18.decode", "C18.decode/%s/%s/buslen=%d/%s" % (what, which, len([c for c in frame["bus"] if c]), op), inp, expected={"name": tname, "value": tval}, actual=detail)
+    for key, kinds in longbus.items():
+        if len(set(kinds.values())) > 1:
+            S.violation("C18.encode", "C18.encode/long-bus-name/static-and-dynamic-disagree", dict(inp0, binding=key[0], value=key[1]), expected="the same answer from both schemas", actual=kinds)
     S.sample({"schema": label, "bindings": [(n, i, b) for n, _f, i, b in bindings], "requests": len(reqs)})
     return S
 
